@@ -6,10 +6,12 @@
    haplotype). *)
 From HV Require Import Prelude Tracts C01_Model C14_Model C03_Model C03_Check.
 
+(* (an [if], not [&&]: under vm_compute's call-by-value the rest of the list is only visited while no
+   duplicate has been found - a 65537-sample panel with < 256 alleles is decided at its first entry) *)
 Fixpoint nodupb (l : list Z) : bool :=
   match l with
   | [] => true
-  | x :: r => negb (existsb (Z.eqb x) r) && nodupb r
+  | x :: r => if existsb (Z.eqb x) r then false else nodupb r
   end.
 
 (* alleles of all reference haplotypes at panel variant v *)
@@ -33,8 +35,130 @@ Definition holds_norep (k : ocase) : bool :=
                  (number_nat 0 (o_vars out))
   end.
 
-Definition check_norep (k : ocase) : bool * bool := (fst (check_vcf k), holds_norep k).
-Definition model_norep := model_vcf.
+(* ---- provenance named by the SAMPLE field ---------------------------------------------
+   When SAMPLE is written, a cell names the reference sample it was copied from; its allele then
+   names the strand whenever that sample's two haplotypes carry different alleles at the variant.
+   Two simulated haplotypes with the same (sample, allele) key at one record took the variant from
+   the same reference haplotype.  Unlike [identifiable] this needs no panel-wide uniqueness of
+   alleles, so it decides wide panels (hundreds of reference samples, < 256 alleles). *)
+Definition cellz (m : list (list (option Z))) (h j : nat) : option Z := nth j (nth h m []) None.
+
+Definition src_key (d : gdata) (v : Z) (g s : option Z) : option (Z * Z) :=
+  match g, s with
+  | Some a, Some r =>
+      match nthZ d r with
+      | Some row =>
+          match nthZ row v with
+          | Some (a0, a1) => if negb (a0 =? a1) && ((a =? a0) || (a =? a1)) then Some (r, a) else None
+          | None => None
+          end
+      | None => None
+      end
+  | _, _ => None
+  end.
+
+Definition key_is (x : Z * Z) (y : option (Z * Z)) : bool :=
+  match y with Some z => pair_eqb Z.eqb Z.eqb x z | None => false end.
+
+Fixpoint nodup_keys (l : list (option (Z * Z))) : bool :=
+  match l with
+  | [] => true
+  | None :: r => nodup_keys r
+  | Some x :: r => negb (existsb (key_is x) r) && nodup_keys r
+  end.
+
+Definition keys_at (d : gdata) (out : output) (sm : list (list (option Z))) (j : nat) (v : Z) : list (option (Z * Z)) :=
+  map (fun h => src_key d v (cellz (o_gt out) h j) (cellz sm h j)) (seq 0 (length (o_gt out))).
+
+Definition holds_norep_smp (k : ocase) : bool :=
+  match o_obs k with
+  | Err _ => true
+  | Ok out =>
+      negb (g_norep (o_cfg k))
+      || match o_smp out with
+         | None => true
+         | Some sm => forallb (fun jo : nat * Z => nodup_keys (keys_at (g_data (o_cfg k)) out sm (fst jo) (snd jo)))
+                              (number_nat 0 (o_vars out))
+         end
+  end.
+
+(* the property on the output of one output_vcf(no_replacement=True) call: both readings *)
+Definition holds_norep_all (k : ocase) : bool := holds_norep k && holds_norep_smp k.
+
+(* ---- population labels beyond 255 ------------------------------------------------------
+   _convert_haplotype returns np.asarray(hap_pops, dtype=np.uint8): with numpy >= 2 a label > 255 on
+   the chromosome raises OverflowError - after the chromosome's blocks were drawn (errors of the
+   drawing come first), before anything of that chromosome is written.  C03's model (labels < 256
+   there) is wrapped, not changed; [output_vcf_w_eq] (C14_ProofsVcf) shows that the wrapper is C03's
+   model whenever no tract carries a label > 255. *)
+Definition E_Overflow : Z := 7.
+Definition wide_label (s : seg) : bool := 255 <? pop s.
+
+Definition hap_chrom_w (norep : bool) (npop : Z) (d : gdata) (hap : list seg) (c : Z)
+    (cv : list cvar) (st : dstate) : res (list (nat * cell) * dstate) :=
+  let segs := segs_of c hap in
+  if existsb wide_label segs then
+    match (if norep
+           then bind (conv_norep false npop segs c 0 (d_tab st) (d_hu st) (d_shuf st)) (fun _ => Ok tt)
+           else bind (conv_rep npop segs (d_tab st) (d_choice st)) (fun _ => Ok tt)) with
+    | Err e => Err e
+    | Ok _ => Err E_Overflow
+    end
+  else hap_chrom false norep npop d hap c cv st.
+
+Fixpoint hap_loop_w (norep : bool) (npop : Z) (d : gdata) (cur_chr : bool) (ov : list (Z * rvar))
+    (hap : list seg) (chroms : list Z) (arr : list (option cell)) (st : dstate)
+  : res (list (option cell) * dstate) :=
+  match chroms with
+  | [] => Ok (arr, st)
+  | c :: cs =>
+      bind (hap_chrom_w norep npop d hap c (cvars_of cur_chr c ov) st)
+           (fun x => let '(ws, st') := x in
+                     hap_loop_w norep npop d cur_chr ov hap cs (write ws arr) st')
+  end.
+
+Fixpoint haps_loop_w (norep : bool) (npop : Z) (d : gdata) (cur_chr : bool) (ov : list (Z * rvar))
+    (chroms : list Z) (bps : list (list seg)) (st : dstate)
+  : res (list (list (option cell)) * dstate) :=
+  match bps with
+  | [] => Ok ([], st)
+  | hap :: r =>
+      bind (hap_loop_w norep npop d cur_chr ov hap chroms (repeat None (length ov)) st)
+           (fun x => let '(arr, st') := x in
+           bind (haps_loop_w norep npop d cur_chr ov chroms r st')
+                (fun y => let '(rest, st'') := y in Ok (arr :: rest, st'')))
+  end.
+
+Definition output_vcf_w (c : config) : res output :=
+  if negb (lenZ (g_tab c) =? g_npop c - 1) then Err E_Assert else
+  let rd := read_vars (g_region c) (g_vars c) in
+  match rd with
+  | [] => Err E_Index
+  | (_, v0) :: _ =>
+    let cur_chr := rv_chr v0 in
+    let ov := out_vars cur_chr (g_chroms c) rd in
+    let st := mkds (g_tab c) (repeat [] (Z.to_nat (2 * g_nref c))) (g_choice c) (g_strand c) (g_shuf c) in
+    bind (haps_loop_w (g_norep c) (g_npop c) (g_data c) cur_chr ov (g_chroms c) (g_bps c) st)
+         (fun x => let '(arrs, _) := x in
+            let proj (f : cell -> Z) := map (map (option_map f)) arrs in
+            Ok (mkout (map fst ov)
+                      (proj (fun x => fst (fst x)))
+                      (if emits_pop (g_pgen c) (g_pop_field c) (g_sample_field c)
+                       then Some (proj (fun x => snd (fst x))) else None)
+                      (if emits_sample false (g_pgen c) (g_pop_field c) (g_sample_field c)
+                       then Some (proj (fun x => snd x)) else None)))
+  end.
+
+Definition model_norep (k : ocase) : res output := output_vcf_w (o_cfg k).
+
+Definition agree_norep (k : ocase) : bool :=
+  match model_norep k, o_obs k with
+  | Ok m, Ok o => out_agree m o
+  | Err a, Err b => a =? b
+  | _, _ => false
+  end.
+
+Definition check_norep (k : ocase) : bool * bool := (agree_norep k, holds_norep_all k).
 
 (* ---- validate_params' sample-info checks (relations params, cli) ------------ *)
 
@@ -121,7 +245,7 @@ Definition accepted (v : verdict) : bool := fst v =? V_accept.
 Definition holds_cli (k : ccase) : bool :=
   holds_params (c_p k)
   && (negb (insufficient (c_p k)) || (negb (c_sim k) && negb (c_wrote k)))
-  && match c_o k with Some o => holds_norep o | None => true end.
+  && match c_o k with Some o => holds_norep_all o | None => true end.
 
 Definition check_cli (k : ccase) : bool * bool :=
   (fst (check_params (c_p k))
